@@ -55,7 +55,8 @@ def _case(draw):
     return dict(part="counters", method=method, dtype="float64", prob=prob, y0=draw(PR.state(prob["shape"])), t0=t0, tf=t0 + direction * L,
                 dt=L * frac, rtol=draw(st.sampled_from([1e-4, 1e-7])), atol=1e-7, dense=draw(st.booleans()), user_jac=draw(st.booleans()),
                 events=events, fault_at=draw(st.sampled_from([None, None, None, 3, 7, 12, 25])), reset_after=draw(st.booleans()),
-                set_dt=draw(st.sampled_from([None, None, 0.5, 0.25, "keep", "cap"])))
+                set_dt=draw(st.sampled_from([None, None, 0.5, 0.25, "keep", "cap"])),
+                prewrap=draw(st.sampled_from(["none", "none", "none", "wrapped", "wrapped_jac", "second_system"])))
 
 
 def parts(tier):
@@ -99,10 +100,28 @@ def check(case):
     ds.DiffRHS.jac = counting_jac
     viols = []
     sig = fam
+    base = dict(rhs=0, jac_requests=0, ujac=0)
     try:
         try:
             y0 = np.asarray(case["y0"], dtype=np.float64).reshape(shape)
-            a = de.OdeSystem(rhs, y0=y0, t=(case["t0"], case["tf"]), dense_output=case["dense"], dt=case["dt"], rtol=case["rtol"], atol=case["atol"])
+            rhs_in = rhs
+            pre = case.get("prewrap", "none")
+            if pre != "none":
+                # the system is handed an already wrapped right-hand side (OdeSystem copies it): pristine, after a Jacobian
+                # request of the user's own at t0, or taken from another system that has already run with it
+                rhs_in = de.DiffRHS(rhs)
+                if pre == "wrapped_jac":
+                    rhs_in.jac(np.float64(case["t0"]), y0.copy())
+                elif pre == "second_system":
+                    first = de.OdeSystem(rhs_in, y0=y0.copy(), t=(case["t0"], case["tf"]), dt=case["dt"], rtol=case["rtol"], atol=case["atol"])
+                    first.method = M.get(method)
+                    armed, cnt["fault_armed"] = cnt["fault_armed"], None
+                    traj.run_integrate(first, np.float64(case["t0"] + 0.25 * (case["tf"] - case["t0"])), step_limit=400)
+                    cnt["fault_armed"] = armed if armed is None else armed + cnt["rhs"]
+                    rhs_in = first.equ_rhs
+                labels.append("prewrapped:" + pre)
+            base.update(rhs=cnt["rhs"], jac_requests=cnt["jac_requests"], ujac=cnt["ujac"])
+            a = de.OdeSystem(rhs_in, y0=y0, t=(case["t0"], case["tf"]), dense_output=case["dense"], dt=case["dt"], rtol=case["rtol"], atol=case["atol"])
             a.method = M.get(method)
         except de.exception_types.FailedIntegration:
             return [], dict(nontrivial=False, labels=labels + ["fault_in_constructor"])
@@ -111,10 +130,11 @@ def check(case):
 
         def counters(where):
             out = []
-            if a.nfev != cnt["rhs"]:
-                out.append(V("nfev", "{}: nfev = {} but the user's rhs completed {} calls ({})".format(method, a.nfev, cnt["rhs"], where), sig, **attrs))
-            if a.njev != cnt["jac_requests"]:
-                out.append(V("njev", "{}: njev = {} but {} Jacobian requests were made ({})".format(method, a.njev, cnt["jac_requests"], where), sig, **attrs))
+            if a.nfev != cnt["rhs"] - base["rhs"]:
+                out.append(V("nfev", "{}: nfev = {} but the user's rhs completed {} calls since the system was constructed ({}{})".format(
+                    method, a.nfev, cnt["rhs"] - base["rhs"], where, "; right-hand side handed over " + case.get("prewrap", "none") if case.get("prewrap", "none") != "none" else ""), sig, **attrs))
+            if a.njev != cnt["jac_requests"] - base["jac_requests"]:
+                out.append(V("njev", "{}: njev = {} but {} Jacobian requests were made ({})".format(method, a.njev, cnt["jac_requests"] - base["jac_requests"], where), sig, **attrs))
             if case["user_jac"] and cnt["ujac"] != cnt["jac_requests"]:
                 out.append(V("user_jacobian_calls", "{}: {} Jacobian requests but the attached user Jacobian ran {} times ({})".format(method, cnt["jac_requests"], cnt["ujac"], where), sig, **attrs))
             return out
@@ -169,6 +189,7 @@ def check(case):
             if phase == "after_reset":
                 a.reset()
                 cnt["rhs"] = 0
+                base["rhs"] = 0
                 # reset() zeroes nfev only (the property speaks of "since construction or the last reset" for the
                 # function-evaluation counter); njev keeps counting requests
                 viols += counters("after reset()")
